@@ -581,6 +581,14 @@ def is_exception(cls: 'Class') -> bool:
             return True
     return False
 
+def is_class_private(name: str) -> bool:
+    """
+    Whether Python mangles this identifier when it is used in a class body (C{__name} becomes 
+    C{_Class__name}): members with such a name are unrelated across classes, they are never 
+    overridden nor inherited under that name.
+    """
+    return name.startswith('__') and not name.endswith('__')
+
 def compute_mro(cls:'Class') -> Sequence[Union['Class', str]]:
     """
     Compute the method resolution order for this class.
@@ -877,7 +885,9 @@ class Inheritable(Documentable):
 
     def docsources(self) -> Iterator[Documentable]:
         yield self
-        if not isinstance(self.parent, Class):
+        if not isinstance(self.parent, Class) or is_class_private(self.name):
+            # A class-private name (__name) is mangled with the name of its class: 
+            # it is a different attribute in every class.
             return
         for b in self.parent.mro(include_self=False):
             if self.name in b.contents:
